@@ -29,7 +29,7 @@ H = [
       functions=["eddsa.VerifyWithChecks"], bound="all 32-byte keys and 64-byte signatures, all verdicts of the group's predicates, all torsion components of R and of the key, all challenges modulo 8"),
 ]
 for ml in [0, 1, 5, 33]:
-    H.append(dict(name="eddsa.Sign-wiring-msglen%d" % ml, pkg="./sign/eddsa", files=["harness/C08/eddsa_sign.go"], entry="HarnessEdDSASignWiring", mode="bv", params={"p0": ml}, unwind=300, globals=["group"], globals_all=True, no_replay=True,
+    H.append(dict(name="eddsa.Sign-wiring-msglen%d" % ml, pkg="./sign/eddsa", files=["harness/C08/eddsa_sign.go"], entry="HarnessEdDSASignWiring", mode="bv", params={"p0": ml}, unwind=300, globals=["group"], globals_all=True, replay_entry="HarnessEdDSASignReplay",
       renames={"(*go.dedis.ch/kyber/v4/group/edwards25519.Curve).Scalar": "sgNewScalar", "(*go.dedis.ch/kyber/v4/group/edwards25519.Curve).Point": "sgNewPoint", "crypto/sha512.New": "sgSha512"},
       stubs=["edwards25519.Curve.Point / Scalar -> fake group: a scalar is a 32-bit value (arithmetic modulo 2^32), a point its discrete logarithm, an encoding the 4 value bytes followed by zeros", "crypto/sha512 -> records what it absorbs, returns an arbitrary digest per Sum"],
       functions=["eddsa.(*EdDSA).Sign"], bound="all messages of %d bytes, all keys, prefixes and digests" % ml, tiers=(["quick", "thorough"] if ml in (0, 5) else ["thorough"])))
